@@ -86,7 +86,7 @@ func RuleK1(r *Report, c *Codec) {
 				if os.Getenv("UHLINT_DEBUG") == "K1:"+k {
 					fmt.Fprintf(os.Stderr, "K1 %s path outcome=%s %s access=%v\n", key, cp.Path.Outcome, cp.Path.Detail, cp.Access)
 					for _, e := range cp.Path.Events {
-						fmt.Fprintf(os.Stderr, "    ev %s\n", cut(e.String(), 200))
+						fmt.Fprintf(os.Stderr, "    ev %s\n", cut(strings.ReplaceAll(e.String(), cf.Offset, "OFF"), 400))
 					}
 				}
 				for _, a := range cp.Access {
@@ -376,6 +376,10 @@ func RuleK2(r *Report, c *Codec) {
 						seen[en] = true
 					}
 				}
+				// the bytes written out / assembled explicitly (shifts, a loop over the width) instead of a helper
+				if ord := explicitOrder(cf, cp); ord != "" {
+					seen[ord] = true
+				}
 			}
 			r.Check(keysOf(seen) == want, "K2", "codec."+cf.Dir+":"+k, c.P.Pos(cf.Fn.Pos()), want, "byte order helpers used: {"+keysOf(seen)+"}, protocol says "+want)
 		}
@@ -388,6 +392,123 @@ func RuleK2(r *Report, c *Codec) {
 		ok := keysOf(kf.MOrder) == want && (kf.UnmarshalFn == nil || keysOf(kf.UOrder) == want)
 		r.Check(ok, "K2", kf.Name, c.P.Pos(kf.MarshalFn.Pos()), want, fmt.Sprintf("encoder order {%s}, decoder order {%s}, protocol %s", keysOf(kf.MOrder), keysOf(kf.UOrder), want))
 	}
+}
+
+// explicitOrder: the byte order of a field that the codec encodes or decodes without a byte-order helper:
+// encode: stores bytes[offset+c] = byte(v >> 8k); decode: an or/sum of bytes[offset+c] << 8k.
+func explicitOrder(cf *CodecFacts, cp CodecPath) string {
+	var pos, sh []int64
+	if cf.Dir == "marshal" {
+		for _, e := range cp.Path.Events {
+			if e.Kind != "store" || len(e.Args) < 2 || e.Args[0].Op != "ptr" || e.Args[0].Cell == nil || len(e.Args[0].Path) != 1 {
+				continue
+			}
+			sel := strings.TrimPrefix(e.Args[0].Path[0], "#")
+			c := int64(-1)
+			// a store through a view of the buffer handed to a helper: bytes[offset+a : ..][k]
+			if v := e.Args[0].Cell.Val; e.Args[0].Cell.Name != cf.Buf {
+				if v != nil && v.Op == "slice" && v.Args[0].String() == cf.Buf && v.Args[1] != nil {
+					if d, okd := relOffset(v.Args[1], cf.Offset); okd {
+						var k int64
+						if _, err := fmt.Sscanf(sel, "%d", &k); err == nil && fmt.Sprint(k) == sel {
+							if _, sk, ok := shiftOf(e.Args[1]); ok {
+								pos = append(pos, d+k)
+								sh = append(sh, sk)
+							}
+						}
+					}
+				}
+				continue
+			}
+			switch {
+			case sel == cf.Offset:
+				c = 0
+			case strings.HasPrefix(sel, "("+cf.Offset+"+") && strings.HasSuffix(sel, ")"):
+				fmt.Sscanf(sel[len(cf.Offset)+2:len(sel)-1], "%d", &c)
+			}
+			_, k, ok := shiftOf(e.Args[1])
+			if c < 0 || !ok {
+				continue
+			}
+			pos = append(pos, c)
+			sh = append(sh, k)
+		}
+	} else {
+		for _, e := range cp.Calls {
+			if !strings.HasSuffix(e.Name, ".SetUint") || len(e.Args) != 2 {
+				continue
+			}
+			ok := true
+			var visit func(x *Term)
+			visit = func(x *Term) {
+				x = stripConvs(x)
+				if x == nil || !ok {
+					return
+				}
+				if x.Op == "bin" && (x.Name == "|" || x.Name == "+") {
+					visit(x.Args[0])
+					visit(x.Args[1])
+					return
+				}
+				if c, isC := x.Int64(); isC && c == 0 {
+					return
+				}
+				k := int64(0)
+				if x.Op == "bin" && x.Name == "<<" {
+					c, isC := x.Args[1].Int64()
+					if !isC {
+						ok = false
+						return
+					}
+					k = c
+					x = stripConvs(x.Args[0])
+				}
+				if x.Op != "index" || len(x.Args) != 2 {
+					ok = false
+					return
+				}
+				base, idx := x.Args[0], x.Args[1]
+				add := int64(0)
+				if base.Op == "slice" && base.Args[0].String() == cf.Buf && base.Args[1] != nil {
+					// an element of a view bytes[offset+a : ...]
+					if d, okd := relOffset(base.Args[1], cf.Offset); okd {
+						if i, isC := idx.Int64(); isC {
+							pos = append(pos, d+i)
+							sh = append(sh, k)
+							return
+						}
+					}
+					ok = false
+					return
+				}
+				if base.String() != cf.Buf {
+					ok = false
+					return
+				}
+				d, okd := relOffset(idx, cf.Offset)
+				if !okd {
+					if os.Getenv("UHLINT_DEBUG") == "K2" {
+						fmt.Fprintf(os.Stderr, "K2 relOffset fails: idx.Op=%s name=%s args=%d %s\n", idx.Op, idx.Name, len(idx.Args), strings.ReplaceAll(idx.String(), cf.Offset, "OFF"))
+					}
+					ok = false
+					return
+				}
+				pos = append(pos, d+add)
+				sh = append(sh, k)
+			}
+			visit(e.Args[1])
+			if os.Getenv("UHLINT_DEBUG") == "K2" {
+				fmt.Fprintf(os.Stderr, "K2 %s ok=%v pos=%v sh=%v arg=%s\n", cp.Kind, ok, pos, sh, strings.ReplaceAll(e.Args[1].String(), cf.Offset, "OFF"))
+			}
+			if !ok {
+				return ""
+			}
+		}
+	}
+	if len(pos) < 2 {
+		return ""
+	}
+	return orderOfPairs(pos, sh)
 }
 
 // K3 booleans
@@ -506,6 +627,8 @@ func checkAliasOf(t *Term, buf, where string, out *[]string) {
 			return
 		case "index", "lookup", "len", "cmp", "bin":
 			return
+		case "arrval":
+			return // [N]byte(s): the array VALUE loaded through the conversion is a copy of the elements
 		case "call":
 			// reflect.ValueOf / reflect.Indirect keep the reference; std decoders and constructors
 			// (net.IPv4, ByteOrder.UintNN, ...) return fresh values (trusted base)
@@ -675,6 +798,12 @@ func RuleK19(r *Report, c *Codec) {
 					v := e.Args[1].String()
 					if !strings.Contains(v, "strconv.ParseUint(") || strings.Contains(v, "(reflect.Value).Uint(") {
 						bad = "with the tag present the byte stored is " + cut(v, 60) + " under [" + cut(cp.Path.State.Describe(), 160) + "]"
+					}
+				}
+				if os.Getenv("UHLINT_DEBUG") == "K19" {
+					fmt.Fprintf(os.Stderr, "K19 %s %s stores=%d\n", cf.Dir, cp.Kind, n)
+					for _, e := range cp.Path.Events {
+						fmt.Fprintf(os.Stderr, "   %s\n", cut(e.String(), 200))
 					}
 				}
 				if n == 0 && bad == "" {
